@@ -75,6 +75,7 @@ def check(m, run):
         skel_drivers.c11(m, run)
     except ImportError:
         run.note('LY4', 'fitting', 'SKEL drivers not available')
+    c16.sc1(m, run)        # the factorisation behind the fits is scale-free: no pivot is compared with an absolute threshold
 
 
 def options_forwarded(m, run):
